@@ -4,5 +4,5 @@ CONSTANTS
   N = 3
   MaxSteps = 8
 INVARIANTS Inv
-PROPERTIES ConnectedToALiveServer RecoversWhenReachable FirstServerAlwaysAsked
+PROPERTIES RecoversIfAnyUp ConnectedToALiveServer RecoversWhenReachable FirstServerAlwaysAsked
 CHECK_DEADLOCK FALSE
